@@ -37,6 +37,9 @@ def aliasMangle (tags : List String) (h : Hdr) (t : Ty) : Outcome (List FT) :=
   else
     let srcTags := found.foldl (fun acc p => tagDel acc (p.1 ++ "alias")) h.tags
     let aTags := found.foldl (fun acc p => tagSet (tagDel acc (p.1 ++ "alias")) p.1 p.2) h.tags
+    -- the alias field answers to the alias names only: source-specific name tags (every tag but the
+    -- base one) without an alias of their own are dropped from it
+    let aTags := (tags.drop 1).foldl (fun acc tag => if found.any (·.1 == tag) then acc else tagDel acc tag) aTags
     let desc := (tagGet aTags "dialsdesc").getD "base dialsdesc unset"
     let setAliases := (found.map fun p => p.1 ++ "=" ++ (tagGet h.tags p.1).getD "")
     let sorted := setAliases.mergeSort (fun a b => a ≤ b)
